@@ -233,43 +233,41 @@ func VerifNextEitherDay() {
 	zzverif.Cover("next_either_day_done")
 }
 
-// An inner field that rolls over must send the search back to the outer fields. Seconds and hours restricted, start
-// in minute 59 with the seconds near the end of the minute: the next matching second is in the next hour, which has
-// to be checked against the hour list again.
+// An inner field that rolls over must send the search back to the outer fields. The seconds field is ":00 only" (as
+// in every five-field expression), the hours are a symbolic list, the start is in the last seconds of an hour: the next
+// second that matches is in the next hour, which has to be checked against the hour list again - and so on outwards.
 //
 //verif:harness prop=C04 name=next_second_and_hour unwind=70 qtimeout=30 solver=z3-new incr=off
 func VerifNextSecondHour() {
 	s := vStar()
-	ws := vW(57, 50)
 	wh := vW(21, 16)
-	s.Second = vMask("second_mask", seconds)
-	zzverif.Assume(s.Second&^vWindow(seconds, ws) == 0)
+	s.Second = 1
 	s.Hour = vMask("hour_mask", hours)
 	zzverif.Assume(s.Hour&^vWindow(hours, wh) == 0)
 	vCheckNext(s, func(t time.Time) {
-		zzverif.Assume(t.Second() >= int(ws))
+		// Next first moves to the next whole second: from second 57 or 58 that is second 58 or 59 of the same minute,
+		// which does not match, so the seconds loop runs into the next minute (and hour)
+		zzverif.Assume(t.Second() >= 57)
+		zzverif.Assume(t.Second() <= 58)
 		zzverif.Assume(t.Minute() == 59)
 		zzverif.Assume(t.Hour() >= int(wh))
 	})
 	zzverif.Cover("next_second_and_hour_done")
 }
 
-// Minutes and days of the month restricted, start late in hour 23: the next matching minute is on the next day, which
-// has to be checked against the day list again.
+// The same one level up: minutes ":00 only", a symbolic list of days of the month, start in the last minute of a day.
 //
 //verif:harness prop=C04 name=next_minute_and_dom unwind=70 qtimeout=30 solver=z3-new incr=off
 func VerifNextMinuteDom() {
 	s := vStar()
-	wm := vW(57, 50)
 	wd := vW(26, 22)
-	s.Minute = vMask("minute_mask", minutes)
-	zzverif.Assume(s.Minute&^vWindow(minutes, wm) == 0)
+	s.Minute = 1
 	m := vMask("dom_mask", dom)
 	zzverif.Assume(m&^vWindow(dom, wd) == 0)
 	zzverif.Assume(m&getBits(1, 28, 1) != 0)
 	s.Dom = m
 	vCheckNext(s, func(t time.Time) {
-		zzverif.Assume(t.Minute() >= int(wm))
+		zzverif.Assume(t.Minute() == 59)
 		zzverif.Assume(t.Hour() == 23)
 		zzverif.Assume(t.Day() >= int(wd))
 	})
